@@ -631,6 +631,7 @@ func runCrdtHistory(e *Env, ctx context.Context, r *Rng, nodes []*Nd, cfg string
 		}
 		h.deliver(d.n, d.c, "final")
 	}
+	h.versionedSweep(r.Intn(k), nil)
 	var ref string
 	for n := range nodes {
 		ex, del, vals, _ := h.observe(n)
@@ -731,6 +732,8 @@ func (h *history) coq() (string, bool) {
 			kind = "SDeliver"
 		case "local-rejected":
 			kind = "SNoop"
+		case "versioned":
+			kind = "SVersioned"
 		}
 		st = append(st, fmt.Sprintf("mkS %s %d %s %s %s [%s]%%nat", kind, s.node, zint(int64(s.cid)), coqBool(s.errText != ""), row, strings.Join(hs, ";")))
 	}
@@ -767,7 +770,13 @@ func engCrdt(e *Env) {
 		for j := 0; j < perCluster && done < nHist; j++ {
 			serial++
 			hr := r.Fork()
-			h := runCrdtHistory(e, ctx, hr, nodes, cfg, serial)
+			var h *history
+			if cfg != "branchable" && j%5 == 4 {
+				h = runLinearHistory(e, ctx, hr, nodes, serial)
+				e.count("linear_history")
+			} else {
+				h = runCrdtHistory(e, ctx, hr, nodes, cfg, serial)
+			}
 			done++
 			e.Res.Evaluations++
 			e.count("cfg_" + cfg)
